@@ -32,6 +32,7 @@ type Obligation struct {
 	Secs    float64
 	Model   string
 	SMTFile string
+	noAxiom string // lemma being proved: exclude itself and later lemmas
 	Support bool // support obligation (requires/inv/frame/cover/safe) as opposed to a tagged clause
 }
 
@@ -403,12 +404,22 @@ func allocFacts(v *Val, ac *Term) []*Term {
 		}
 	case VSlice:
 		out = append(out, Lt(v.Ref, ac))
+	case VIface:
+		out = append(out, Lt(v.Box, ac))
 	case VStruct, VTuple:
 		for _, f := range v.Fs {
 			out = append(out, allocFacts(f, ac)...)
 		}
 	}
 	return out
+}
+
+func isRefType(t types.Type) bool {
+	switch t.Underlying().(type) {
+	case *types.Pointer, *types.Map, *types.Chan, *types.Signature:
+		return true
+	}
+	return false
 }
 
 func (c *FnCtx) storeAddr(st *State, a *Addr, t types.Type, v *Val) {
@@ -579,11 +590,15 @@ func (c *FnCtx) box(st *State, v *Val, t types.Type) *Val {
 	switch v.K {
 	case VScalar:
 		if v.X.S == SBool {
-			it.Box = Ite(v.X, Num(1), Num(0))
+			it.Box = App("boxv", SInt, Ite(v.X, Num(1), Num(0)))
 		} else if v.Addr != nil {
 			it.Box = addrTerm(v.Addr)
-		} else {
+		} else if isRefType(t) {
 			it.Box = v.X
+		} else {
+			// non-reference scalars are boxed through an injective map into the negative integers,
+			// so that every box is either such an image or an allocated reference (< ac)
+			it.Box = App("boxv", SInt, v.X)
 		}
 	default:
 		r := c.newRef(st, "box")
@@ -603,10 +618,12 @@ func (c *FnCtx) unbox(st *State, iv *Val, t types.Type) *Val {
 		return &Val{K: VIface, T: t, Tag: iv.Tag, Box: iv.Box}
 	}
 	if isBoolType(t) {
-		return scalar(t, Eq(iv.Box, Num(1)))
+		return scalar(t, Eq(App("unboxv", SInt, iv.Box), Num(1)))
 	}
-	v := scalar(t, iv.Box)
-	return v
+	if isRefType(t) {
+		return scalar(t, iv.Box)
+	}
+	return scalar(t, App("unboxv", SInt, iv.Box))
 }
 
 // ---- SSA values
